@@ -447,6 +447,10 @@ func parseRealms(lines []string) (realms []Realm, err error) {
 			}
 			c--
 			if c == 0 {
+				if start+1 > i {
+					// the block opens and closes on the same line
+					return nil, fmt.Errorf("realm configuration line invalid: %s", l)
+				}
 				var r Realm
 				e := r.parseLines(name, lines[start+1:i])
 				if e != nil {
